@@ -126,3 +126,47 @@ class intermediate_spec_lot:
 
     def sample(rng):
         return {'passphrase': rng.choice(_PASSPHRASES), 'owner_salt': _salt(rng), 'lot': rng.randint(100000, 999999), 'sequence': rng.randint(1, 4095)}
+
+
+@contract('bitcoinlib.keys.bip38_create_new_encrypted_wif', case='ec-multiplied-roundtrip-native', props=('C15',))
+class ec_multiplied_roundtrip:
+    """EC-multiplied mode end to end (native evaluation only: scrypt / AES / EC are third-party): an intermediate code made from a passphrase
+    (with and without lot / sequence), a new encrypted key made from it (compressed and uncompressed) and decryption with the same passphrase
+    give a key whose address is the one reported at creation, with the same compression flag and the same lot / sequence; a different
+    passphrase is refused."""
+    params = {'n': Int(0, 10 ** 6)}
+    native_only = True
+    bounded = 'random passphrases x {no lot, lot/sequence} x {compressed, uncompressed}, fixed owner salts and seeds drawn from a PRNG'
+
+    def build(n):
+        import random
+        rng = random.Random(n)
+        pw = rng.choice(['TestingOneTwoThree', 'Satoshi', 'päss wörd', 'x', '\U0001f4a9 long pass phrase ' * 2])
+        lot = rng.choice([None, 100000, 263183, 999999])
+        seq = None if lot is None else rng.choice([1, 2, 4095])
+        compressed = rng.random() < 0.5
+        salt = bytes(rng.getrandbits(8) | 0x80 for _ in range(8))
+        seed = bytes(rng.getrandbits(8) for _ in range(24))
+
+        def run():
+            inter = K.bip38_intermediate_password(pw, lot=lot, sequence=seq, owner_salt=salt)
+            made = K.bip38_create_new_encrypted_wif(inter, compressed=compressed, seed=seed)
+            k = K.Key(made['encrypted_wif'], password=pw)
+            try:
+                K.Key(made['encrypted_wif'], password=pw + 'x')
+                wrong_accepted = True
+            except Exception:
+                wrong_accepted = False
+            dec = K.bip38_decrypt(made['encrypted_wif'], pw)
+            info = dec[3] if isinstance(dec, tuple) and len(dec) > 3 and isinstance(dec[3], dict) else {}
+            return {'address_made': made['address'], 'address_decrypted': k.address(), 'compressed': k.compressed, 'want_compressed': compressed,
+                    'wrong_accepted': wrong_accepted, 'lot': info.get('lot'), 'sequence': info.get('sequence'), 'want_lot': lot, 'want_seq': seq}
+        return run, [], {}
+
+    def ensures(n, result):
+        r = result
+        return (r['address_made'] == r['address_decrypted'] and r['compressed'] == r['want_compressed'] and not r['wrong_accepted']
+                and (r['want_lot'] is None or (r['lot'] == r['want_lot'] and r['sequence'] == r['want_seq'])))
+
+    def sample(rng):
+        return {'n': rng.randrange(10 ** 6)}
